@@ -32,6 +32,9 @@ def project():
     # two files with one base name in different directories: the file graphs tell them apart
     f["src/grid/util.f90"] = "module grid_util\n  integer :: gu\nend module grid_util\n"
     f["src/io/util.f90"] = "module io_util\n  use grid_util\nend module io_util\n"
+    # separate module procedures, implemented in both spellings: each interface has an edge to its implementation
+    f["src/sep.f90"] = ("module sep\n  implicit none\n  interface\n    module subroutine sone()\n    end subroutine sone\n    module subroutine stwo()\n    end subroutine stwo\n  end interface\nend module sep\n"
+                        "submodule (sep) sep_impl\ncontains\n  module subroutine sone()\n  end subroutine sone\n  module procedure stwo\n  end procedure stwo\nend submodule sep_impl\n")
     f["src/deep.f90"] = ("module deep\n  implicit none\ncontains\n  subroutine outer()\n  contains\n    subroutine inner()\n      use base\n    end subroutine inner\n  end subroutine outer\nend module deep\n"
                          "program deep_main\ncontains\n  subroutine level1()\n  contains\n    subroutine level2()\n      use deep\n    end subroutine level2\n  end subroutine level1\nend program deep_main\n")
     return f
@@ -40,7 +43,7 @@ def project():
 # the relations the project-wide graphs are documented to show, for project(): (from, to, style)
 TYPE_EDGES = {("t1", "t0", "solid"), ("t2", "t1", "solid"), ("t2", "t0", "dashed"), ("h1", "holder", "solid"), ("h2", "h1", "solid"), ("holder", "t0", "dashed")}
 FILE_EDGES = {("holders.f90", "types.f90"), ("deep.f90", "uses.f90"), ("deep.f90", "deep.f90"), ("util.f90~2", "util.f90")}
-USE_EDGES = {("left", "base"), ("right", "base"), ("top", "left"), ("top", "right"), ("holders", "types"), ("io_util", "grid_util")}
+USE_EDGES = {("left", "base"), ("right", "base"), ("top", "left"), ("top", "right"), ("holders", "types"), ("io_util", "grid_util"), ("sep_impl", "sep")}
 # (a USE statement inside a contained procedure is an edge of the *file* graph - compilation order - not of the module graph, which shows the USE statements of the
 # module's own scope)
 
@@ -76,6 +79,9 @@ def exact_relations(gm):
         if e.name == "draw_square" and hasattr(e, "calledbygraph"):
             if not edges_of(e.calledbygraph):
                 bad.append("called-by graph of draw_square is empty although render calls it through square_t%draw")
+    impl = {(a, b) for a, b in edges_of(gm.callgraph) if a in ("sone", "stwo")}
+    if impl != {("sone", "sone"), ("stwo", "stwo")}:
+        bad.append(f"project call graph: interface-to-implementation edges of the separate module procedures {sorted(impl)}, expected one for `module subroutine sone` and one for `module procedure stwo`")
     got = edges_of(gm.usegraph)
     if got != USE_EDGES:
         bad.append(f"project module graph: unexpected edges {sorted(got - USE_EDGES)}, missing edges {sorted(USE_EDGES - got)}")
